@@ -327,6 +327,15 @@ def gen_path(rng, malformed):
 def gen_op(rng, cfg, n_ents, malformed, ents=()):
     """one operation; mostly events; direct writes only when an entry exists; unless the stream is
     the malformed one, operations whose precondition (an assert in the code) fails are re-drawn"""
+    if n_ents >= 2 and rng.random() < 0.04:
+        # targeted: move a side that has a path but NO id (what ousting by a rename-over event, an id re-used by a
+        # direct assignment, or a re-keyed kid leaves behind) onto an entry that OWNS an id on that side
+        # (the "path first, then id" order of SyncEntry.__setitem__)
+        cands = [(d, s_, sd) for sd in (0, 1) for s_ in range(n_ents) for d in range(n_ents)
+                 if d != s_ and ents[s_][sd]._path and not ents[s_][sd]._oid and ents[d][sd]._oid]
+        if cands:
+            d, s_, sd = cands[rng.randrange(len(cands))]
+            return ["move", d, s_, sd]
     for _ in range(20):
         op = gen_op1(rng, cfg, n_ents, malformed)
         if malformed or applicable(op, ents):
@@ -346,7 +355,13 @@ def applicable(op, ents):
     if k == "split":
         return bool(ents[op[1]][0]._oid)
     if k == "move":
-        return op[1] != op[2] and op[1] < len(ents) and op[2] < len(ents) and (not ents[op[2]][op[3]]._path or bool(ents[op[2]][op[3]]._oid))
+        # SyncEntry.__setitem__: an incoming side WITH an id is announced id first, then path; one WITHOUT an id
+        # path first, then id (None).  _change_path asserts the destination's CURRENT id only in the second order,
+        # so the only failing precondition is: incoming path, no incoming id, and no id on the destination either.
+        if not (op[1] != op[2] and op[1] < len(ents) and op[2] < len(ents)):
+            return False
+        src, dst = ents[op[2]][op[3]], ents[op[1]][op[3]]
+        return not src._path or bool(src._oid) or bool(dst._oid)
     if k == "updent":
         e = ents[op[1]][op[2]]
         return (op[3] or e._oid) and not (op[8] == 2 and op[6])
@@ -438,6 +453,9 @@ def run_real(cfg, ops=None, rng=None, nops=0, malformed=False):
             if ops is None:
                 nops += 0
             continue
+        if op[0] == "move" and REC.ents[op[2]][op[3]]._path and not REC.ents[op[2]][op[3]]._oid:
+            # the "path first, then id" order of SyncEntry.__setitem__ (incoming side has a path and no id)
+            REC.move_idless = getattr(REC, "move_idless", 0) + 1
         res, tape = real.step(op)
         out_ops.append(op)
         results.append(res)
@@ -463,9 +481,10 @@ REFUTED = ("iv-extra", "iv-forgotten")                                       # c
 
 def eval_case(model, cfg, ops=None, rng=None, nops=0, malformed=False):
     """-> dict(ops, mismatch, claimed violations, refuted-clause hits, error kind, stats)"""
+    REC.move_idless = 0
     ops, results, tapes, viol = run_real(cfg, ops=ops, rng=rng, nops=nops, malformed=malformed)
     mo = model.call(model_request(cfg, ops, tapes)) if ops else []
-    out = dict(ops=ops, mismatch=None, claimed=[], refuted=[], err=None, steps=len(ops))
+    out = dict(ops=ops, mismatch=None, claimed=[], refuted=[], err=None, steps=len(ops), move_idless=REC.move_idless)
     if mo != results:
         k = 0
         while k < min(len(mo), len(results)) and mo[k] == results[k]:
@@ -515,6 +534,7 @@ def _worker(args):
         for o in r["ops"]:
             k = o[0] if o[0] != "set" else "set." + o[3]
             st["op_kinds"][k] = st["op_kinds"].get(k, 0) + 1
+        st["op_kinds"]["move.idless_source_with_path"] = st["op_kinds"].get("move.idless_source_with_path", 0) + r["move_idless"]
         ek = {None: "none", 0: "RecursionError", 1: "AssertionError", 2: "KeyError"}[r["err"]]
         st["errors"][ek] = st["errors"].get(ek, 0) + 1
         for _, v in r["refuted"]:
